@@ -14,8 +14,40 @@ Import ListNotations.
 From ZI Require Export Tie.RegCommon.
 From ZI Require Import Spec.LookupSpec.
 
-Definition case_t := hist_case.
-Definition model_out := hist_model_out.
+(* A case = the phases of a history + one observed answer per registry op.  A phase is a stretch of the
+   history during which the specification world did not change: its observed graph, the interface flags,
+   the specifications changed IN PLACE to get there (classImplements & co on a class whose declaration is
+   a required specification; none for the first phase) and its ops.  Static histories have one phase. *)
+Definition phase := (graph * list bool * list spec * list rop)%type.
+Definition case_t := (list phase * list (list nat))%type.
+
+(* final state and answers of Model/RegSys on one phase *)
+Fixpoint run_st (W : world) (s : sys) (ops : list rop) : sys * list (list nat) :=
+  match ops with
+  | [] => (s, [])
+  | o :: ops' => let '(s', a) := step W call s o in let '(s'', l) := run_st W s' ops' in (s'', a :: l)
+  end.
+
+(* A specification changed in place calls changed() on everything that depends on it: the specifications
+   extending it and, through them, every lookup object that subscribed to one of those
+   (AdapterLookupBase._subscribe = the [c_required] of Model/Lookup.v); such a lookup object drops its
+   caches and its subscriptions.  [W] is the world after the change. *)
+Definition invalidate (W : world) (chg : list spec) (s : sys) : sys :=
+  fold_left (fun s r =>
+               if existsb (fun x => existsb (fun ch => mem ch (w_sro W x)) chg) (c_required (rs_caches (get s r)))
+               then lookup_changed false s r else s)
+            (seq 0 (length s)) s.
+
+Fixpoint run_phases (s : sys) (ps : list phase) : list (list nat) :=
+  match ps with
+  | [] => []
+  | (g, ifs, chg, ops) :: ps' =>
+      let W := mk_world g ifs in
+      let '(s', l) := run_st W (invalidate W chg s) ops in
+      l ++ run_phases s' ps'
+  end.
+
+Definition model_out (c : case_t) : list (list nat) := run_phases [] (fst c).
 
 (* ---- the theorems' hypotheses on the observed world *)
 Fixpoint inclb (a b : list nat) : bool :=
@@ -30,8 +62,8 @@ Definition world_wf_b (n : nat) (W : world) : bool :=
           (seq 0 n).
 
 Definition check_model (c : case_t) : bool :=
-  let '(g, ifs, _, _) := c in
-  hist_check_model c && world_wf_b (length g) (mk_world g ifs).
+  llnat_eqb (model_out c) (snd c)
+  && forallb (fun ph : phase => let '(g, ifs, _, _) := ph in world_wf_b (length g) (mk_world g ifs)) (fst c).
 
 (* ---- independent net-effect replay *)
 Definition nreg := (list nat * list (akey * value))%type.       (* __bases__, net registrations *)
@@ -135,12 +167,24 @@ Definition answer_ok (W : world) (s : nstate) (o : rop) (a : list nat) : bool :=
   | _ => true
   end.
 
-Fixpoint spec_run (W : world) (s : nstate) (ops : list rop) (obs : list (list nat)) : bool :=
-  match ops, obs with
-  | [], [] => true
-  | o :: ops', a :: obs' => answer_ok W s o a && spec_run W (net_step s o) ops' obs'
-  | _, _ => false
+(* one phase: answers judged in the world of the phase; the net registrations and the rest of the
+   observations are threaded on *)
+Fixpoint spec_run (W : world) (s : nstate) (ops : list rop) (obs : list (list nat))
+  : bool * nstate * list (list nat) :=
+  match ops with
+  | [] => (true, s, obs)
+  | o :: ops' =>
+      match obs with
+      | [] => (false, s, [])
+      | a :: obs' => let '(b, s', r) := spec_run W (net_step s o) ops' obs' in (answer_ok W s o a && b, s', r)
+      end
   end.
 
-Definition check_spec (c : case_t) : bool :=
-  let '(g, ifs, ops, obs) := c in spec_run (mk_world g ifs) [] ops obs.
+Fixpoint spec_phases (s : nstate) (ps : list phase) (obs : list (list nat)) : bool :=
+  match ps with
+  | [] => match obs with [] => true | _ => false end
+  | (g, ifs, _, ops) :: ps' =>
+      let '(b, s', r) := spec_run (mk_world g ifs) s ops obs in b && spec_phases s' ps' r
+  end.
+
+Definition check_spec (c : case_t) : bool := spec_phases [] (fst c) (snd c).
